@@ -892,7 +892,10 @@ func (x *Exec) evalCall(e *Expr, env *Env) Val {
 		nm, idx := calleeName(e.Args[0]), e.Args[1].String()
 		v, ok := env.st.callVals[nm+":"+idx]
 		if !ok {
-			// no such call on this path: an arbitrary error value (guard with called(f)); never skips the clause
+			// no such call on this path: an arbitrary value of the result's type (guard with called(f)); never skips the clause
+			if rt := x.resultTypeByName(nm, idx); rt != nil && !isErrorType(rt) {
+				return x.freshVal(env.st, "nocall", rt)
+			}
 			n := x.freshName("nocall")
 			env.st.declare(n, "Err")
 			return Val{K: KErr, T: n, Typ: types.Universe.Lookup("error").Type()}
@@ -1111,4 +1114,38 @@ func calleeName(e *Expr) string {
 		return strings.Trim(e.Name, "\"`")
 	}
 	return e.String()
+}
+
+// resultTypeByName: the type of result idx of the function called under this name somewhere in the function under verification.
+func (x *Exec) resultTypeByName(name, idx string) types.Type {
+	if x.fn == nil {
+		return nil
+	}
+	var i int
+	fmt.Sscanf(idx, "%d", &i)
+	var found types.Type
+	var scan func(f *ssa.Function)
+	scan = func(f *ssa.Function) {
+		for _, b := range f.Blocks {
+			for _, in := range b.Instrs {
+				ci, ok := in.(ssa.CallInstruction)
+				if !ok {
+					continue
+				}
+				cal := ci.Common().StaticCallee()
+				if cal == nil || funcName(cal) != name {
+					continue
+				}
+				res := cal.Signature.Results()
+				if i < res.Len() {
+					found = res.At(i).Type()
+				}
+			}
+		}
+		for _, af := range f.AnonFuncs {
+			scan(af)
+		}
+	}
+	scan(x.fn)
+	return found
 }
